@@ -89,4 +89,33 @@ MNext0 == (\E s \in Segs : Edit(s) \/ Drop(s)) \/ SerializeMesh \/ (\E k \in BOO
 \* parse(serialise(m)) = m for the current model m, in every state
 Faithful == wire = None \/ wire = want
 RawIsACopy == \A s \in Segs : (mode # "parsedRaw" => raw[s] = -1) /\ (s \in dropped => raw[s] = cur[s])
+
+(*************************** mesh vertex weights ***************************)
+(* "Weights" of a LOD segment: for every vertex up to 4 influences (joint     *)
+(* index U8, weight U16 little-endian), then the terminator 0xFF IF AND ONLY   *)
+(* IF the vertex has fewer than 4; a vertex without influences is the bare     *)
+(* terminator.  Vertices follow each other without any other framing, so the   *)
+(* byte after a full vertex belongs to the NEXT vertex.                        *)
+Term == 255
+RECURSIVE FlatB(_)
+FlatB(ss) == IF ss = <<>> THEN <<>> ELSE Head(ss) \o FlatB(Tail(ss))
+\* a vertex: <<<<joint, w16>>, ...>> with at most 4 entries, joint < 255
+VertexBytes(v) == FlatB([i \in 1..Len(v) |-> <<v[i][1], v[i][2] % 256, v[i][2] \div 256>>])
+                  \o (IF Len(v) < 4 THEN <<Term>> ELSE <<>>)
+WeightsBytes(vs) == FlatB([k \in 1..Len(vs) |-> VertexBytes(vs[k])])
+\* reference parser: one vertex starting at byte i (1-based); returns the vertex and the next position
+RECURSIVE ParseVertex(_, _, _)
+ParseVertex(b, i, acc) ==
+    IF Len(acc) = 4 THEN [v |-> acc, i |-> i]                       \* full: no terminator follows
+    ELSE IF i > Len(b) \/ b[i] = Term THEN [v |-> acc, i |-> i + 1]  \* terminator consumed
+    ELSE ParseVertex(b, i + 3, Append(acc, <<b[i], b[i + 1] + 256 * b[i + 2]>>))
+RECURSIVE ParseWeights(_, _)
+ParseWeights(b, i) == IF i > Len(b) THEN <<>>
+                      ELSE LET r == ParseVertex(b, i, <<>>) IN <<r.v>> \o ParseWeights(b, r.i)
+\* generated vertices: raw weights whose bytes look like terminators, joints next to the terminator value
+W16s == <<65535, 255, 65280, 1, 0, 32768, 65534, 511>>
+GenVertex(vi, n, hiJoints) ==
+    [i \in 1..n |-> <<IF hiJoints THEN 255 - i ELSE i - 1, W16s[((vi * 4 + i) % Len(W16s)) + 1]>>]
+GenWeights(counts, hiJoints) == [k \in 1..Len(counts) |-> GenVertex(k, counts[k], hiJoints)]
+WeightsRoundTrip(vs) == ParseWeights(WeightsBytes(vs), 1) = vs
 =============================================================================
